@@ -280,6 +280,12 @@ Reschedule(ts, st, nd) ==
   /\ cfg' = [cfg EXCEPT !.times = ts, !.start = st, !.nd = nd]
   /\ UNCHANGED << pc, i, g, m, clock, bucket, calls, eos, result, error >>
 
+\* the file that the load-detector model reads is rewritten between two runs
+Rewrite(st) ==
+  /\ Idle
+  /\ cfg' = [cfg EXCEPT !.stored = st]
+  /\ UNCHANGED << pc, i, g, m, clock, bucket, calls, eos, result, error >>
+
 Restart ==
   /\ pc \in {"done", "failed", "rejected"}
   /\ pc' = "new"
